@@ -18,6 +18,7 @@ from bibtexparser.middlewares.enclosing import (RemoveEnclosingMiddleware, AddEn
 from bibtexparser.model import Entry, Field, String
 from bibtexparser.library import Library
 import bibtexparser
+from checks import grammar as G
 from bibtexparser.splitter import Splitter
 
 SIGMA = '{}"# x1\\_\n'
@@ -84,6 +85,11 @@ def drv_reuse(v1, v2, key, reuse, encl_int, default):
     return first, run(RemoveEnclosingMiddleware(True), mk_add(), v1), second, run(RemoveEnclosingMiddleware(True), mk_add(), v2)
 
 
+def drv_legal(v, key, reuse, encl_int, default, with_remove):
+    """the driver plus: is v a value the splitter can produce (grammar `value`: braced / quoted / bare pieces joined by #)?"""
+    return drv(v, key, reuse, encl_int, default, with_remove), G.is_value(v)
+
+
 def esc_balanced(v, quote_default):
     depth = 0
     esc = False
@@ -120,13 +126,64 @@ def drv_reparse(v, default):
 
 
 # ------------------------------------------------------------------ oracle (from the statement)
+def scan_inside(cs):
+    """over the symbolic characters cs[0..n-1] (escape-aware, a backslash hides the next character):
+    early  = the brace opened by cs[0] is closed again before the last character,
+    bareq  = an unescaped '"' at brace depth 0 occurs strictly inside.
+    (the two ways in which first/last character are NOT one pair: '{a} # {b}', '"a" # "b"')"""
+    n = len(cs)
+    early = False
+    bareq = False
+    # states for the brace scan: depth counted from cs[0]; for the quote scan: depth counted after cs[0]
+    st_b = {(0, False): True}
+    st_q = {(0, False): True}
+
+    def step(states, c, idx, quote_mode):
+        nonlocal early, bareq
+        new = {}
+
+        def add(k, cond):
+            if cond is False:
+                return
+            new[k] = b_or(new.get(k, False), cond)
+        for (d, esc), cond in states.items():
+            if esc:
+                add((d, False), cond)
+                continue
+            isb, iso, isc = ch_eq(c, chr(92)), ch_eq(c, "{"), ch_eq(c, "}")
+            add((d, True), b_and(cond, isb))
+            add((d + 1, False), b_and(cond, iso))
+            if d > 0:
+                add((d - 1, False), b_and(cond, isc))
+            else:
+                add((0, False), b_and(cond, isc))
+            rest = b_all([cond, b_not(isb), b_not(iso), b_not(isc)])
+            if quote_mode and d == 0 and 0 < idx < n - 1:
+                bareq = b_or(bareq, b_and(rest, ch_eq(c, '"')))
+            add((d, False), rest)
+        return new
+    for idx, c in enumerate(cs):
+        st_b = step(st_b, c, idx, False)
+        if idx < n - 1:
+            hit = b_or(st_b.get((0, False), False), False)
+            if idx >= 0 and hit is not False:
+                early = b_or(early, hit)
+                st_b = {k: v for k, v in st_b.items() if k != (0, False)}
+        if idx >= 1:
+            st_q = step(st_q, c, idx, True)
+    return early, bareq
+
+
 def strip_expect(v):
-    """-> list of (condition, stripped, kind) alternatives over the symbolic string v"""
+    """-> list of (condition, stripped, kind) alternatives over the symbolic string v.  One OUTER pair is stripped: first
+    and last character are braces / quotes AND belong together ('{a} # {b}' and '"a" # "b"' are concatenations of several
+    enclosed texts, they have no outer pair)"""
     cs = chars(v)
     alts = []
     if len(cs) >= 2:
-        br = b_and(ch_eq(cs[0], "{"), ch_eq(cs[-1], "}"))
-        qu = b_and(ch_eq(cs[0], '"'), ch_eq(cs[-1], '"'))
+        early, bareq = scan_inside(cs)
+        br = b_all([ch_eq(cs[0], "{"), ch_eq(cs[-1], "}"), b_not(early)])
+        qu = b_all([ch_eq(cs[0], '"'), ch_eq(cs[-1], '"'), b_not(bareq)])
         alts.append((br, mk(cs[1:-1]), "{"))
         alts.append((qu, mk(cs[1:-1]), '"'))
         alts.append((b_not(b_or(br, qu)), v, "no-enclosing"))
@@ -163,10 +220,33 @@ def wrap(val, enc):
     return val
 
 
+def one_pair(v):
+    """concrete twin of scan_inside: do first and last character belong together?"""
+    depth = 0
+    esc = False
+    n = len(v)
+    for i, c in enumerate(v):
+        if esc:
+            esc = False
+            continue
+        if c == chr(92):
+            esc = True
+        elif c == "{":
+            depth += 1
+        elif c == "}":
+            if depth > 0:
+                depth -= 1
+            if v[0] == "{" and depth == 0 and i < n - 1:
+                return False
+        elif c == '"' and v[0] == '"' and depth == 0 and 0 < i < n - 1:
+            return False
+    return True
+
+
 def native_strip(v):
-    if len(v) >= 2 and v[0] == "{" and v[-1] == "}":
+    if len(v) >= 2 and v[0] == "{" and v[-1] == "}" and one_pair(v):
         return v[1:-1], "{"
-    if len(v) >= 2 and v[0] == '"' and v[-1] == '"':
+    if len(v) >= 2 and v[0] == '"' and v[-1] == '"' and one_pair(v):
         return v[1:-1], '"'
     return v, "no-enclosing"
 
@@ -193,7 +273,11 @@ def replay(v, key, reuse, encl_int, default, with_remove):
         guard_repo_exception(ex)
         return {"input": [v, key, reuse, encl_int, default, with_remove], "observed": f"raised {type(ex).__name__}: {ex}", "expected": "no exception"}
     bad = []
-    if with_remove:
+    if with_remove and not G.is_value(v):
+        if reuse and v != fe:
+            bad.append(f"restore gave {fe!r}, expected original {v!r}")
+        xe, xs = fe, fs
+    elif with_remove:
         es, ek = native_strip(v)
         if (se, (me or {}).get(key)) != (es, ek):
             bad.append(f"entry strip gave {(se, me)!r}, expected {(es, ek)!r}")
@@ -252,17 +336,23 @@ def task_str(L, key, reuse, encl_int, default, with_remove):
     rec = Recorder(eng)
     v, g = sym_value(eng, L)
     E = eng.I.models.eq_simple
-    worlds = eng.run(drv, [v, key, reuse, encl_int, default, with_remove], guard=g)
+    worlds = eng.run(drv_legal, [v, key, reuse, encl_int, default, with_remove], guard=g)
     for W in worlds:
         rp = lambda m: replay(eng.model_str(m, v), key, reuse, encl_int, default, with_remove)
         if W.exc is not None:
             rec.require(W, True, "no-exception", rp)
             continue
-        se, me, ss, ms, fe, fs, nb, lv = W.result
+        (se, me, ss, ms, fe, fs, nb, lv), legal = W.result
         if nb != 2:
             rec.require(W, True, "block-count", rp)
             continue
         rec.require(W, b_not(E(lv, {"{": "{w}", '"': '"w"'}[default])), "field-without-metadata-gets-default", rp)
+        if with_remove and legal is not True:
+            # not a value the splitter can produce (unbalanced braces, a stray quote ...): which "pair" is stripped is not
+            # fixed by the statement; only the exact restoration is
+            if reuse:
+                rec.require(W, b_not(b_and(E(fe, v), E(fs, v))), "restore-exact", rp)
+            continue
         if with_remove:
             for cond, es, ek in strip_expect(v):
                 if cond is False:
@@ -392,10 +482,10 @@ def task_twice(L, key, default):
 def task_casekeys(L, default):
     eng = Engine()
     rec = Recorder(eng)
-    v = eng.sym_str("c", L, "x1 {}")
+    v = eng.sym_str("c", L, "x1 #")
     g = True
     if L >= 1:
-        g = b_all([b_not(ch_eq(chars(v)[0], " ")), b_not(ch_eq(chars(v)[-1], " ")), b_not(ch_eq(chars(v)[0], "{")), b_not(ch_eq(chars(v)[-1], "}"))])
+        g = b_all([b_not(ch_eq(chars(v)[0], " ")), b_not(ch_eq(chars(v)[-1], " "))])
     E = eng.I.models.eq_simple
     worlds = eng.run(drv_casekeys, [v, default], guard=g)
 
@@ -480,7 +570,7 @@ def main():
             for L in (2, 1):
                 chk.add_task(f"str-{key}-r{int(reuse)}-i{int(encl_int)}-{default}-rm1-L{L}", task_str, L=L, key=key,
                              reuse=reuse, encl_int=encl_int, default=default, with_remove=True)
-    chk.bounds["keys differing in case"] = "entry with Title = \"V\", title = {V}, TITLE = V (V of length 0..3 over x 1 blank braces, not starting / ending in a blank or brace): Remove, Add(reuse) restores all three"
+    chk.bounds["keys differing in case"] = "entry with Title = \"V\", title = {V}, TITLE = V (V of length 0..3 over x 1 blank #, not starting / ending in a blank): Remove, Add(reuse) restores all three"
     for default in ("{", '"'):
         for L in (3, 2, 1, 0):
             chk.add_task(f"casekeys-{default}-L{L}", task_casekeys, L=L, default=default)
